@@ -1771,6 +1771,21 @@ def _d_values(fr, d):
     return list(d.values())
 
 
+@method('scalar.item')
+def _scalar_item(fr, x):
+    return x
+
+
+@method('dict.pop')
+def _d_pop(fr, d, k, *default):
+    k = fr.hashable(k)
+    if k in d:
+        return d.pop(k)
+    if default:
+        return default[0]
+    raise SymRaise('KeyError')
+
+
 @method('dict.get')
 def _d_get(fr, d, k, default=None):
     return d.get(fr.hashable(k), default)
@@ -1869,6 +1884,52 @@ def _sl_append(fr, lst, x):
         new.append(_cat(fr, [v, t.unsqueeze(0)], 0))
     lst.views = new
     lst.count = lst.count + 1
+
+
+@lib('abstract_comprehension')
+def _abstract_comprehension(fr, frame, elt, gen, seq):
+    """[elt for target in <abstract sequence>] where elt evaluates to a tensor: the result is the
+    uniform abstract list whose stack-view at row j is elt evaluated on item j."""
+    if seq.ghost is not None or seq.has is not None:
+        raise Unsupported("comprehension over a ghosted iterator")
+    j = z3.Int(O.fresh_name('cj'))
+    saved = dict(frame.env)
+    try:
+        frame.assign(gen.target, seq.item(j))
+        v = frame.ev(elt)
+    finally:
+        for k in list(frame.env.keys()):
+            if k not in saved:
+                del frame.env[k]
+        frame.env.update(saved)
+    if not isinstance(v, Tn):
+        raise Unsupported("abstract comprehension element is not a tensor")
+    snap = v.snapshot()
+
+    def content(jj, *idx):
+        t = snap(*idx)
+        if O.is_sym(t):
+            return z3.substitute(t, (j, O.to_z3(jj)))
+        return t
+    shape = []
+    for d in v.shape:
+        if O.is_sym(d) and j in _vars_of(d):
+            raise Unsupported("abstract comprehension: item shape depends on the index")
+        shape.append(d)
+    view = Tn.fresh([seq.count] + shape, content, v.kind, lib=v.lib)
+    return StackList(seq.count, [view])
+
+
+def _vars_of(t):
+    out = set()
+
+    def rec(x):
+        if z3.is_const(x) and x.decl().kind() == z3.Z3_OP_UNINTERPRETED:
+            out.add(x)
+        for ch in x.children():
+            rec(ch)
+    rec(t)
+    return out
 
 
 @lib('abstract_list')
